@@ -182,4 +182,61 @@ theorem parse_rejects_wrong_check_digit (digits : List Nat) (c : Nat)
   exact parse_rejects_substitution digits [] (48 + k) c hall hc (Ne.symm hne)
     (by simp; omega) hval
 
+/-- **21-digit manual pairing code (specification-side encoder — rs-matter only has the decoder):
+the decoder inverts the format of the Matter specification** -/
+theorem parse_specEncodeLong (disc pw vid pid : Nat) (hd : disc < 4096) (hp : pw < 134217728)
+    (hv : vid < 65536) (hpd : pid < 65536) :
+    ∃ code, specEncodeLong disc pw vid pid = .ok code ∧ code.length = 21 ∧
+      parse code = .ok { short := disc / 256, pass := pw, vid := vid, pid := pid, long := true } := by
+  have hg2 : disc / 256 % 4 * 16384 + pw % 16384 < 100000 := by omega
+  have hg3 : pw / 16384 < 10000 := by omega
+  generalize hdg : fixedDigits 1 (4 + disc / 1024) ++ fixedDigits 5 (disc / 256 % 4 * 16384 + pw % 16384) ++
+    fixedDigits 4 (pw / 16384) ++ fixedDigits 5 vid ++ fixedDigits 5 pid = digits
+  have hdig : ∀ c ∈ digits, isDigit c = true := by
+    intro c hc
+    rw [← hdg] at hc
+    simp only [List.mem_append] at hc
+    rcases hc with (((hc | hc) | hc) | hc) | hc <;> exact fixedDigits_digits _ _ c hc
+  have hlen : digits.length = 20 := by rw [← hdg]; simp [fixedDigits_length]
+  obtain ⟨k, hk, hklt, hval⟩ := validate_calculate digits hdig
+  have hfk : fixedDigits 1 k = [48 + k] := by simp [fixedDigits]; omega
+  refine ⟨digits ++ [48 + k], ?_, by simp [hlen], ?_⟩
+  · simp only [specEncodeLong, hdg, hk, hfk]
+  have hall : ∀ c ∈ digits ++ [48 + k], isDigit c = true := by
+    intro c hc
+    rcases List.mem_append.mp hc with hc | hc
+    · exact hdig c hc
+    · simp at hc; subst hc; simp [isDigit]; omega
+  have hstrip := strip_digits (digits ++ [48 + k]) [] hall (by simp [hlen])
+  simp only [List.nil_append] at hstrip
+  unfold parse
+  simp only [hstrip, bind, Except.bind, List.length_append, hlen, List.length_cons, List.length_nil,
+    pure, Except.pure, hval, Bool.not_true, Consts.c17ManualShortLen, Consts.c17ManualLongLen]
+  have e : digits ++ [48 + k] =
+      [48 + (4 + disc / 1024) % 10,
+       48 + (disc / 256 % 4 * 16384 + pw % 16384) / 10000 % 10, 48 + (disc / 256 % 4 * 16384 + pw % 16384) / 1000 % 10,
+       48 + (disc / 256 % 4 * 16384 + pw % 16384) / 100 % 10, 48 + (disc / 256 % 4 * 16384 + pw % 16384) / 10 % 10,
+       48 + (disc / 256 % 4 * 16384 + pw % 16384) % 10,
+       48 + pw / 16384 / 1000 % 10, 48 + pw / 16384 / 100 % 10, 48 + pw / 16384 / 10 % 10, 48 + pw / 16384 % 10,
+       48 + vid / 10000 % 10, 48 + vid / 1000 % 10, 48 + vid / 100 % 10, 48 + vid / 10 % 10, 48 + vid % 10,
+       48 + pid / 10000 % 10, 48 + pid / 1000 % 10, 48 + pid / 100 % 10, 48 + pid / 10 % 10, 48 + pid % 10,
+       48 + k] := by
+    rw [← hdg]; simp [fixedDigits]
+  rw [e]
+  simp only [digitsAt, List.length_cons, List.length_nil, List.drop, List.take, decVal5, decVal4, decVal1]
+  have a1 : (4 + disc / 1024) % 10 = 4 + disc / 1024 := by omega
+  have a2 : ∀ g, g < 100000 → 10000 * (g / 10000 % 10) + 1000 * (g / 1000 % 10) + 100 * (g / 100 % 10) + 10 * (g / 10 % 10) + g % 10 = g := by
+    intro g hg; omega
+  have a3 : ∀ g, g < 10000 → 1000 * (g / 1000 % 10) + 100 * (g / 100 % 10) + 10 * (g / 10 % 10) + g % 10 = g := by
+    intro g hg; omega
+  rw [a1, a2 _ hg2, a3 _ hg3, a2 vid (by omega), a2 pid (by omega)]
+  have b1 : ¬ (4 + disc / 1024 > 7) := by omega
+  have b2 : ¬ (disc / 256 % 4 * 16384 + pw % 16384 > 65535) := by omega
+  have b3 : ¬ (pw / 16384 > 8191) := by omega
+  have b4 : (4 + disc / 1024) / 4 = 1 := by omega
+  have b5 : ¬ (vid > 65535 ∨ pid > 65535) := by omega
+  simp [b1, b2, b3, b4, b5]
+  constructor <;> omega
+
+
 end Codec.ManualCode
